@@ -36,7 +36,7 @@ func normNsp(n string) string {
 }
 
 type c05Op struct {
-	Op  string `json:"op"`  // c2s | s2c | ack | nspbc | roombc | disconnect
+	Op  string `json:"op"`  // c2s | s2c | ack | nspbc | roombc | disconnect | reconnect (of a namespace disconnected earlier)
 	Nsp int    `json:"nsp"` // index into Namespaces
 	Mgr int    `json:"mgr"` // which manager's socket (0 = shared connection with all namespaces, 1 = second connection)
 }
@@ -198,6 +198,7 @@ func evalC05(c c05Case) (f *Failure, nontrivial bool) {
 			return
 		}
 		disconnected := map[key]bool{}
+		rejoined := false
 		seq := 0
 		expect := map[string]int{} // token@receiver -> expected count
 		for _, op := range c.Ops {
@@ -205,6 +206,29 @@ func evalC05(c c05Case) (f *Failure, nontrivial bool) {
 			norm := normNsp(c.Namespaces[op.Nsp])
 			k := key{norm, op.Mgr}
 			cs := clients[k]
+			if op.Op == "reconnect" {
+				// a namespace that was left is joined again on the same connection: it must connect, and nothing else may notice
+				if norm == rejected || cs == nil || !disconnected[k] {
+					continue
+				}
+				settle(50 * time.Millisecond)
+				mu.Lock()
+				before := cs.connects
+				mu.Unlock()
+				cs.s.Connect()
+				settle(2 * time.Second)
+				mu.Lock()
+				after, ss := cs.connects, srvSock[k]
+				mu.Unlock()
+				if after != before+1 || !cs.s.Connected() || ss == nil || !ss.Connected() {
+					set(fail("rejoin-after-leaving", fmt.Sprintf("namespace %q on connection %d was left and joined again: connect fired %d times, Connected()=%v, server socket connected %v; client-side events %v",
+						k.nsp, k.mgr, after-before, cs.s.Connected(), ss != nil && ss.Connected(), diag)))
+					return
+				}
+				delete(disconnected, k)
+				rejoined = true
+				continue
+			}
 			if norm == rejected || cs == nil || disconnected[k] {
 				continue
 			}
@@ -238,6 +262,7 @@ func evalC05(c c05Case) (f *Failure, nontrivial bool) {
 			case "disconnect":
 				settle(10 * time.Millisecond) // traffic in flight on this namespace is delivered first: a disconnect legitimately drops what follows it
 				cs.s.Disconnect()
+				settle(50 * time.Millisecond) // the server learns about it before anything else is issued: a broadcast racing the DISCONNECT packet may legitimately still address the socket
 				disconnected[k] = true
 				nontrivial = nontrivial || op.Mgr == 0
 			}
@@ -245,6 +270,7 @@ func evalC05(c c05Case) (f *Failure, nontrivial bool) {
 				settle(10 * time.Millisecond)
 			}
 		}
+		nontrivial = nontrivial || rejoined
 		settle(2 * time.Second)
 		// after disconnecting some namespaces every other namespace of those connections still completes an ack round trip
 		final := map[key]bool{}
@@ -342,7 +368,7 @@ func genC05Case(t *rapid.T) c05Case {
 		}
 	}
 	for i, k := 0, rapid.IntRange(2, 20).Draw(t, "ops"); i < k; i++ {
-		op := c05Op{Op: rapid.SampledFrom([]string{"c2s", "s2c", "ack", "nspbc", "roombc", "c2s", "s2c", "disconnect"}).Draw(t, "op"), Nsp: rapid.IntRange(0, n-1).Draw(t, "nsp"),
+		op := c05Op{Op: rapid.SampledFrom([]string{"c2s", "s2c", "ack", "nspbc", "roombc", "c2s", "s2c", "disconnect", "reconnect"}).Draw(t, "op"), Nsp: rapid.IntRange(0, n-1).Draw(t, "nsp"),
 			Mgr: rapid.IntRange(0, 1).Draw(t, "mgr")}
 		c.Ops = append(c.Ops, op)
 	}
@@ -354,7 +380,7 @@ func TestC05_Isolation(t *testing.T) {
 	defer startWatchdog(t, 60*time.Second)()
 	ev := NewEv(t, "C05", c05Check, "rapid on the virtual-time rig: 2..5 namespaces drawn from look-alikes (/, '', /a, a, /ab, /a/b, '/a b', /ä, /0, /12, /a\", /A, /a-, /1-2), one manager with a socket per "+
 		"namespace (shared connection) plus a second manager on a subset, per-namespace middleware delays (CONNECT replies in any order), optionally one rejecting namespace; 2..20 operations: emits both "+
-		"ways, ack round trips, namespace and room broadcasts (same room name everywhere), client-side disconnect of one namespace; every token names its namespace and connection; oracle: a handler of "+
+		"ways, ack round trips, namespace and room broadcasts (same room name everywhere), client-side disconnect of one namespace and joining it again later on the same connection; every token names its namespace and connection; oracle: a handler of "+
 		"(X, k) only ever sees tokens of X/k, deliveries == expectations exactly, acks return to the emitter, a rejected namespace yields connect_error once and never connects, after the disconnects every "+
 		"other namespace of the connection still completes an ack round trip; non-trivial = >= 2 namespaces on one connection with one a prefix of another")
 	rapidGuard(t, "C05", c05Check)
@@ -389,6 +415,7 @@ func evalC05Raw(c c05RawCase) *Failure {
 	var res *Failure
 	msg := runRig(rigOpts{}, func(r *rig) {
 		var mu sync.Mutex
+		ok := false
 		dispatched := []string{}
 		connections := map[string]int{}
 		for _, name := range []string{"/a", "/b", "/c"} {
@@ -462,10 +489,59 @@ func evalC05Raw(c c05RawCase) *Failure {
 			send(`4/a,{"message":"boo"}`)
 		case "event-unknown-nsp":
 			send(`2/zzz,["ev","x"]`)
+		case "event-after-leaving", "ack-after-leaving", "rejoin-after-leaving":
+			// the connection is attached to /a and /b, talks to /a, leaves /a (only /a), and then addresses /a again
+			send("0/b,")
+			settle(time.Second)
+			send(`2/a,["ev","first"]`)
+			settle(100 * time.Millisecond)
+			send("1/a,")
+			settle(time.Second)
+			switch c.Hostile {
+			case "event-after-leaving":
+				send(`2/a,["ev","x"]`)
+			case "ack-after-leaving":
+				send(`3/a,0["x"]`)
+			case "rejoin-after-leaving":
+				send("0/a,")
+				settle(time.Second)
+				send(`2/a,["ev","again"]`, `2/b,["ev","still"]`)
+			}
 		}
 		settle(10 * time.Second)
 		mu.Lock()
 		defer mu.Unlock()
+		if strings.HasSuffix(c.Hostile, "-after-leaving") {
+			want := []string{"/a:ev:first", "/a:disconnect:client namespace disconnect"}
+			wantConn := map[string]int{"/a": 1, "/b": 2}
+			if c.Hostile == "rejoin-after-leaving" {
+				want = append(want, "/a:ev:again", "/b:ev:still")
+				wantConn["/a"] = 2
+				if closed != "" {
+					res = fail("rejoin-after-leaving", fmt.Sprintf("joining /a again after leaving it closed the connection (%s); dispatched %v, inbound %v", closed, dispatched, inbound))
+					return
+				}
+			} else {
+				// closing the connection also ends its socket in /b
+				for _, d := range dispatched {
+					if strings.HasPrefix(d, "/b:disconnect:") {
+						want = append(want, d)
+					}
+				}
+				if closed == "" {
+					res = fail("closes-the-connection", fmt.Sprintf("after %s the offending connection is still open (dispatched %v, inbound %v)", c.Hostile, dispatched, inbound))
+					return
+				}
+			}
+			got := append([]string(nil), dispatched...)
+			sort.Strings(got)
+			sort.Strings(want)
+			if fmt.Sprint(got) != fmt.Sprint(want) || connections["/a"] != wantConn["/a"] || connections["/b"] != wantConn["/b"] {
+				res = fail("never-dispatched", fmt.Sprintf("hostile case %s: dispatched %v, want %v; connection handlers %v, want %v", c.Hostile, got, want, connections, wantConn))
+				return
+			}
+			goto others
+		}
 		for _, d := range dispatched {
 			if !strings.HasPrefix(d, "/a:disconnect:") {
 				res = fail("never-dispatched", fmt.Sprintf("the server dispatched %q for a packet of a namespace the connection had not joined (hostile case %s)", d, c.Hostile))
@@ -483,8 +559,9 @@ func evalC05Raw(c c05RawCase) *Failure {
 				return
 			}
 		}
+	others:
 		// other connections are unaffected
-		ok := false
+		ok = false
 		mu.Unlock()
 		healthy.Emit("rt", "ping", func(back string) { mu.Lock(); ok = back == "ping"; mu.Unlock() })
 		settle(2 * time.Second)
@@ -492,7 +569,9 @@ func evalC05Raw(c c05RawCase) *Failure {
 		if !ok {
 			res = fail("others-unaffected", "after the hostile packet a healthy client on another connection no longer completes an ack round trip")
 		}
-		cli.Close()
+		mu.Unlock()
+		cli.Close() // its callbacks take mu
+		mu.Lock()
 	})
 	if res == nil && msg != "" && !isBubbleDeadlock(msg) {
 		res = fail("bubble-panic", "synctest: "+msg)
@@ -505,12 +584,13 @@ func TestC05_RawPeer(t *testing.T) {
 	setT(t)
 	defer startWatchdog(t, 60*time.Second)()
 	ev := NewEv(t, "C05", c05CheckRaw, "enumeration: a hand-written Socket.IO client (repo's eio package) joins /a and then sends EVENT / BINARY_EVENT / ACK / DISCONNECT for /b (exists, never joined), an EVENT for "+
-		"/c while its CONNECT is still in a slow middleware, an EVENT for a namespace that does not exist, a second CONNECT for /a, a CONNECT_ERROR; x {polling, websocket}; oracle: nothing is dispatched "+
+		"/c while its CONNECT is still in a slow middleware, an EVENT for a namespace that does not exist, a second CONNECT for /a, a CONNECT_ERROR, and - attached to /a and /b - leaves /a and then sends an EVENT / an ACK for /a or joins /a again; x {polling, websocket}; oracle: nothing is dispatched "+
 		"to any handler, the offending connection is closed (not-joined cases), a healthy client on another connection still round-trips; non-trivial = every case")
 	ev.Exhaustive()
 	i := 0
 	for _, tr := range []string{"polling", "websocket"} {
-		for _, h := range []string{"event-unjoined", "binary-event-unjoined", "ack-unjoined", "disconnect-unjoined", "event-pending", "second-connect", "connect-error", "event-unknown-nsp"} {
+		for _, h := range []string{"event-unjoined", "binary-event-unjoined", "ack-unjoined", "disconnect-unjoined", "event-pending", "second-connect", "connect-error", "event-unknown-nsp",
+			"event-after-leaving", "ack-after-leaving", "rejoin-after-leaving"} {
 			i++
 			if !mine(i) {
 				continue
